@@ -275,7 +275,7 @@ func (runInfo *runInfoStruct) runLetsStmt(stmt *ast.LetsStmt) {
 		if (value.Kind() == reflect.Slice || value.Kind() == reflect.Array) && value.Len() > 0 {
 			// value is slice/array, add each value to left side expression
 			for i := 0; i < value.Len() && i < len(stmt.LHSS); i++ {
-				runInfo.rv = value.Index(i)
+				runInfo.rv = detach(value.Index(i))
 				runInfo.expr = stmt.LHSS[i]
 				runInfo.invokeLetExpr()
 				if runInfo.err != nil {
@@ -770,7 +770,7 @@ func (runInfo *runInfoStruct) runSwitchStmt(stmt *ast.SwitchStmt) {
 		runInfo.env = env
 		return
 	}
-	value := runInfo.rv
+	value := detach(runInfo.rv)
 
 	for _, switchCaseStmt := range stmt.Cases {
 		caseStmt := switchCaseStmt.(*ast.SwitchCaseStmt)
